@@ -558,7 +558,7 @@ func (w *World) applyScriptChain() {
 		}
 		reached := false
 		for _, ps := range w.pairs {
-			if ps.src.plan.Name == sc.Src && ps.maxEverNum >= sc.AtPos {
+			if ps.src.plan.Name == sc.Src && ps.maxEverNum >= sc.AtPos && (sc.Pair == "" || sc.Pair == ps.key) {
 				reached = true
 			}
 		}
